@@ -475,10 +475,23 @@ def rule_wire_units(ctx):
                 return b.values[-1].value
         return "?"
 
+    def reach(fn):
+        """the function and the module's own functions it (transitively) calls: a helper may live beside its caller"""
+        seen, todo = [fn], [fn]
+        while todo:
+            g = todo.pop()
+            for c in ast.walk(g):
+                if isinstance(c, ast.Call) and isinstance(c.func, ast.Name) and c.func.id in m.functions and m.functions[c.func.id] not in seen:
+                    seen.append(m.functions[c.func.id])
+                    todo.append(m.functions[c.func.id])
+        return seen
+
     checks = []
     if "to_sf" in m.functions:
         f = m.functions["to_sf"]
-        checks.append(("to_sf", "TIME values (microseconds) are sent as nanoseconds: multiplied by 1000", any(has_const(c, 1000) for c in calls(f, "multiply"))))
+        time_fns = [g for g in reach(f) if any("is_time" in norm(c.func) for c in ast.walk(g) if isinstance(c, ast.Call))]
+        checks.append(("to_sf", "TIME values (microseconds) are sent as nanoseconds: multiplied by 1000",
+                       any(has_const(c, 1000) for g in time_fns for c in calls(g, "multiply"))))
     if "timestamp_to_sf_struct" in m.functions:
         f = m.functions["timestamp_to_sf_struct"]
         checks.append(("timestamp_to_sf_struct", "epoch seconds = microseconds / 1_000_000", any(has_const(c, 1_000_000) for c in calls(f, "divide"))))
@@ -522,6 +535,41 @@ def rule_fraction(ctx):
                                   f"`{norm(c.func.value)[:80]}` is a floating-point value cast to {tgt} without rounding: for some fractions "
                                   f"(e.g. .066172 s -> 66172000.00000001) the cast raises ArrowInvalid and the query fails over HTTP only")
     ctx.floor("integer casts in arrow.py", n, 2)
+    # C17.d2: a result column itself (a parameter of the converting function, not a value computed from it) is cast to an
+    # integer type only where its type was tested to be TIME (an int64 inside): every other column type either needs no cast
+    # or does not fit — DECIMAL(38,0) values beyond int64 make the cast raise, over HTTP only
+    n2 = 0
+    parent = {}
+    for nd in ast.walk(m.tree):
+        for ch in ast.iter_child_nodes(nd):
+            parent[id(ch)] = nd
+    for c in ast.walk(m.tree):
+        if not (isinstance(c, ast.Call) and isinstance(c.func, ast.Attribute) and c.func.attr == "cast" and c.args and "int" in norm(c.args[0])
+                and isinstance(c.func.value, ast.Name)):
+            continue
+        tests, cur, fdef = [], c, None
+        while id(cur) in parent:
+            up = parent[id(cur)]
+            if isinstance(up, ast.If) and any(cur is x for x in up.body):
+                tests.append(norm(up.test))
+            elif isinstance(up, ast.IfExp) and cur is up.body:
+                tests.append(norm(up.test))
+            if isinstance(up, (ast.FunctionDef, ast.AsyncFunctionDef)) and fdef is None:
+                fdef = up
+                break
+            cur = up
+        if fdef is None or c.func.value.id not in {a.arg for a in (*fdef.args.posonlyargs, *fdef.args.args, *fdef.args.kwonlyargs)}:
+            continue
+        n2 += 1
+        qual = fdef.name
+        ok = any("is_time(" in t or "Time64Type" in t or "Time32Type" in t for t in tests)
+        ctx.ob("C17.d2", f"{qual}: the column `{c.func.value.id}` is cast to {norm(c.args[0])} only under a TIME-type test", ok, m.loc(c), str(tests[:1]))
+        if not ok:
+            ctx.violation("C17.d2", "arrow", qual, c, m.loc(c),
+                          f"the result column `{c.func.value.id}` is cast to {norm(c.args[0])} under {tests[:1] or 'no type test'}: only TIME columns are "
+                          f"64-bit integers inside; a DECIMAL(38,0) / HUGEINT column holds values beyond int64 and the cast raises — the query "
+                          f"fails through the server although it succeeds in process")
+    ctx.floor("C17.d2 raw column casts", n2, 1)
 
 
 def rule_rowset(ctx):
